@@ -31,11 +31,19 @@ func lexOps(k int) []oper.Operator {
 	case 5:
 		// the one operator character outside ASCII (U+02C6, two bytes)
 		ops = append(ops, userOp(".ˆ"), userOp("?ˆ"), userOp("ˆ"), userOp("ˆˆ."))
+	case 6:
+		// user operators in front of the built-ins (the order the facade uses):
+		// a short operator, a word operator, then the built-in extensions of the short one
+		ops = append([]oper.Operator{userOp("|"), userOp("xor"), userOp("<"), userOp("in"), userOp("<=>")}, ops...)
+	case 7:
+		// a table of its own, registered in an order that interleaves short
+		// operators, word operators and longer operators with the same prefix
+		ops = []oper.Operator{userOp("="), userOp("<"), userOp(">"), userOp("and"), userOp("or"), userOp("not"), userOp("<="), userOp(">="), userOp("<>"), userOp("<=>"), userOp("+"), userOp("*")}
 	}
 	return ops
 }
 
-const nLexOps = 6
+const nLexOps = 8
 
 func isSymbolicOp(k string) bool { return !oper.IsIdentOp(k) }
 
